@@ -64,7 +64,21 @@ macro_rules! set_method {
 
 pub fn build(app: &Value) -> Ohkami {
     let fangs: Vec<i64> = app["fangs"].as_array().map(|a| a.iter().map(|x| x.as_i64().unwrap()).collect()).unwrap_or_default();
-    let mut oh = with_fangs!(&fangs, |f| Ohkami::with(f, ()));
+    // two public ways to attach fangs: `Ohkami::with(fangs, routes)` and `Ohkami::new((f1, .., fk, routes..))` (one macro per arity)
+    let mut oh = if app["via_new"].as_bool() == Some(true) && !fangs.is_empty() {
+        let ids = &fangs;
+        match ids.len() {
+            1 => Ohkami::new((L(ids[0]), "/")),
+            2 => Ohkami::new((L(ids[0]), L(ids[1]), "/")),
+            3 => Ohkami::new((L(ids[0]), L(ids[1]), L(ids[2]), "/")),
+            4 => Ohkami::new((L(ids[0]), L(ids[1]), L(ids[2]), L(ids[3]), "/")),
+            5 => Ohkami::new((L(ids[0]), L(ids[1]), L(ids[2]), L(ids[3]), L(ids[4]), "/")),
+            6 => Ohkami::new((L(ids[0]), L(ids[1]), L(ids[2]), L(ids[3]), L(ids[4]), L(ids[5]), "/")),
+            7 => Ohkami::new((L(ids[0]), L(ids[1]), L(ids[2]), L(ids[3]), L(ids[4]), L(ids[5]), L(ids[6]), "/")),
+            8 => Ohkami::new((L(ids[0]), L(ids[1]), L(ids[2]), L(ids[3]), L(ids[4]), L(ids[5]), L(ids[6]), L(ids[7]), "/")),
+            n => panic!("harness: {n} fangs"),
+        }
+    } else { with_fangs!(&fangs, |f| Ohkami::with(f, ())) };
     for item in app["items"].as_array().unwrap() {
         if let Some(m) = item.get("mount").and_then(Value::as_str) {
             let sub = build(&item["app"]);
